@@ -188,7 +188,15 @@ class Resolver:
             return self.term(e.value, node)
         if isinstance(e, ast.Starred):
             return ("star", self.term(e.value, node))
-        if isinstance(e, (ast.JoinedStr, ast.ListComp, ast.SetComp, ast.DictComp, ast.GeneratorExp, ast.Lambda, ast.FormattedValue)):
+        if isinstance(e, ast.JoinedStr):
+            parts = []
+            for v in e.values:
+                if isinstance(v, ast.FormattedValue):
+                    parts.append(self.term(v.value, node))
+                elif isinstance(v, ast.Constant):
+                    parts.append(("const", v.value))
+            return ("fstr", tuple(parts))
+        if isinstance(e, (ast.ListComp, ast.SetComp, ast.DictComp, ast.GeneratorExp, ast.Lambda, ast.FormattedValue)):
             from .cfg import name_uses
 
             deps = frozenset(self.name_term(n.id, node) for n in name_uses(e))
@@ -320,4 +328,6 @@ def show(t: Any, depth: int = 0) -> str:
         return f"<{t[1]}:{', '.join(sorted(show(x, depth + 1) for x in t[2]))}>"
     if k == "star":
         return "*" + show(t[1], depth + 1)
+    if k == "fstr":
+        return "f'" + "".join(x[1] if x[0] == "const" and isinstance(x[1], str) else "{" + show(x, depth + 1) + "}" for x in t[1]) + "'"
     return f"<{k}>"
